@@ -5,6 +5,7 @@ import (
 	"io"
 	"os"
 	"path/filepath"
+	"strings"
 )
 
 // CheckPlainName makes sure that a file name listed in a .dsc or .changes
@@ -12,7 +13,8 @@ import (
 // name with a directory part ("../x", "/etc/passwd", "a/b") is never
 // legitimate and must not be followed.
 func CheckPlainName(name string) error {
-	if name == "" || name == "." || name == ".." || filepath.Base(name) != name {
+	if name == "" || name == "." || name == ".." || filepath.Base(name) != name ||
+		strings.ContainsRune(name, filepath.Separator) {
 		return fmt.Errorf("Refusing to touch '%s': not a plain file name", name)
 	}
 	return nil
